@@ -756,6 +756,30 @@ async fn read_flow(ctx: Rc<Ctx>, tid: usize, side: Side, mut recv: RecvStream) {
                     }
                     ctx.event(&format!("{label}:read->{n}"));
                 }
+                (Api::Chunks, Chunk::All) if odd && pos == 0 && payload >= 2 => {
+                    // on every second stream a short prefix is taken through read_chunk first, so
+                    // that read_to_end starts at a non-zero stream position (seeded change C16-c m2)
+                    ctx.set_op(tid, "read", format!("read_chunk(3) prefix at {pos} on stream {sid}"));
+                    match recv.read_chunk(3, true).await.map_err(|e| ("read", format!("{e:?}")))? {
+                        None => eof = true,
+                        Some(c) => {
+                            if c.offset != pos || c.bytes.is_empty() || c.bytes.len() > 3 {
+                                ctx.problem(
+                                    "stream-bytes",
+                                    "chunk-offset",
+                                    format!("{}: ordered read_chunk(3) on stream {sid} at position {pos} returned offset {} length {}", row.label(), c.offset, c.bytes.len()),
+                                );
+                                return Ok(());
+                            }
+                            if !verify(pos, &c.bytes, "read_chunk") {
+                                return Ok(());
+                            }
+                            pos += c.bytes.len() as u64;
+                            ctx.count("read_to_end_after_a_prefix");
+                        }
+                    }
+                    ctx.event(&format!("{label}:read_chunk-prefix"));
+                }
                 (Api::Chunks, Chunk::All) => {
                     ctx.set_op(tid, "read", format!("read_to_end at {pos} on stream {sid}"));
                     let BufResult(r, buf) = recv.read_to_end(Vec::new()).await;
